@@ -445,7 +445,7 @@ class ODF2MoinMoin(object):
 
         for item in tableElement.childNodes:
             self.lastsegment = item.tagName
-            if item.tagName == "table:table-header-rows":
+            if item.tagName in ("table:table-header-rows", "table:table-rows"):
                 buffer.append(self.tableToString(item))
             if item.tagName == "table:table-row":
                 buffer.append("\n||")
